@@ -1060,8 +1060,17 @@ def construct(ctx: Any, cls: ClassInfo, *args: Any, hook: Any = None, **kwargs: 
     params = [x.arg for x in a.posonlyargs + a.args][1:]
     env: Dict[str, Any] = {"self": o}
     if len(args) > len(params):
-        raise Unfoldable("too many constructor arguments for %s" % cls.name)
+        if a.vararg is None:
+            raise Unfoldable("too many constructor arguments for %s" % cls.name)
+        env[a.vararg.arg] = tuple(args[len(params):])  # `def __init__(self, x, *rest)`
+        args = args[: len(params)]
+    elif a.vararg is not None:
+        env[a.vararg.arg] = ()
     env.update(zip(params, args))
+    if a.kwarg is not None:
+        named = set(params) | {x.arg for x in a.kwonlyargs}
+        env[a.kwarg.arg] = {k: v for k, v in kwargs.items() if k not in named}
+        kwargs = {k: v for k, v in kwargs.items() if k in named}
     env.update(kwargs)
     defaults = dict(zip(reversed(params), reversed(a.defaults)))
     for p_ in params + [x.arg for x in a.kwonlyargs]:
